@@ -169,6 +169,11 @@ func (r *Runner) specStep(k int, st SpecStep) {
 		}
 		r.doRPC(Stim{Op: op, Kind: mapped.Kind, From: mapped.From, To: mapped.To}, mapped)
 	case "TimerFire":
+		if !c.timed {
+			// the step stands for a stretch of time (Raft.tla: Elapse): every leader gets an idle round in
+			time.Sleep(c.HB + 5*time.Millisecond)
+			synctest.Wait()
+		}
 		ok = r.Do(Stim{Op: "fire", N: n})
 	case "RVExchange":
 		c.lapse(n, p)
